@@ -140,10 +140,10 @@ def prove(pid, cfg, tier):
     res["obligations"] = list(theorems)
     with Lock("lake"):
         t0 = time.time()
-        rc, out = run(["lake", "build"] + cfg["modules"] + ["driver"], cwd=LEAN, timeout=3600)
+        rc, out = run(["lake", "build"] + cfg["modules"] + ["driver_" + pid.lower()], cwd=LEAN, timeout=3600)
         res["build_s"] = round(time.time() - t0, 1)
         res["build_log"] = out[-6000:]
-        failed_mods = re.findall(r"^- (SigModel[\w.]*|driver|Driver)", out, re.M) if rc != 0 else []
+        failed_mods = re.findall(r"^- (SigModel[\w.]*|driver\w*)", out, re.M) if rc != 0 else []
         res["failed_modules"] = failed_mods
         broken_decls = []
         for m in re.finditer(r"^error: (\S+?\.lean):(\d+):\d+:", out, re.M):
@@ -156,7 +156,7 @@ def prove(pid, cfg, tier):
             pass
         elif rc != 0:
             # property module broke but the executable model may still build
-            rc2, out2 = run(["lake", "build", "driver"], cwd=LEAN, timeout=3600)
+            rc2, out2 = run(["lake", "build", "driver_" + pid.lower()], cwd=LEAN, timeout=3600)
             res["driver_ok"] = rc2 == 0
         props_ok = rc == 0
         # forbidden constructs in every source the property depends on
@@ -201,24 +201,29 @@ def prove(pid, cfg, tier):
 # --------------------------------------------------------------------------
 # step 3: correspond
 
-def build_harness(pkg, gobin):
-    """go test -c with the harness files overlaid into the package. Returns (path, err)."""
-    with Lock("harness_%s_%s" % (pkg, gobin)):
+def build_harness(pid, hcfg):
+    """go test -c with this property's harness files overlaid into the package. Returns (path, err)."""
+    pkg, gobin = hcfg["pkg"], hcfg.get("go", "go")
+    with Lock("harness_%s" % pid):
         hdir = os.path.join(VERIF, "harness", pkg)
         pkgdir = REPO if pkg == "signaling" else os.path.join(REPO, pkg)
+        names = ["zz_verif_common_test.go"] + hcfg.get("files", [])
+        names += [os.path.basename(f) for f in sorted(glob.glob("%s/zz_verif_%s_*.go" % (hdir, pid.lower())))]
         rep = {}
-        for f in sorted(glob.glob(hdir + "/*.go")):
-            base = os.path.basename(f)
-            if gobin == "go" and base.endswith("_go126_test.go"):
-                continue
-            rep[os.path.join(pkgdir, base)] = f
-        ov = os.path.join(BUILD, "overlay_%s_%s.json" % (pkg, gobin))
+        for base in dict.fromkeys(names):
+            rep[os.path.join(pkgdir, base)] = os.path.join(hdir, base)
+        ov = os.path.join(BUILD, "overlay_%s.json" % pid)
         json.dump({"Replace": rep}, open(ov, "w"), indent=1)
-        exe = os.path.join(BUILD, "%s_%s.test" % (pkg, gobin))
+        exe = os.path.join(BUILD, "%s.test" % pid)
         t0 = time.time()
-        rc, out = run([gobin, "test", "-c", "-vet=off", "-tags", "verif", "-overlay", ov, "-o", exe, "."],
-                      cwd=pkgdir, env=GOENV, timeout=1800)
-        log("harness build %s/%s: rc=%d %.1fs" % (pkg, gobin, rc, time.time() - t0))
+        env = dict(GOENV)
+        if hcfg.get("race"):
+            env["CGO_ENABLED"] = "1"
+        cmd = [gobin, "test", "-c", "-vet=off", "-tags", "verif", "-overlay", ov, "-o", exe]
+        if hcfg.get("race"):
+            cmd.append("-race")
+        rc, out = run(cmd + ["."], cwd=pkgdir, env=env, timeout=1800)
+        log("harness build %s (%s, %s): rc=%d %.1fs" % (pid, pkg, gobin, rc, time.time() - t0))
         if rc != 0:
             return None, out[-4000:]
         return exe, None
@@ -256,7 +261,7 @@ def run_harness(exe, pkg, test, seed, tier, out_path, replay=None, scale=None, t
 
 def run_driver(pid, cases, judge_with_impl=True):
     """Feed all cases to the Lean driver. Returns per case list of (model, verdict)."""
-    exe = os.path.join(LEAN, ".lake", "build", "bin", "driver")
+    exe = os.path.join(LEAN, ".lake", "build", "bin", "driver_" + pid.lower())
     lines = []
     for c in cases:
         lines.append("reset")
@@ -368,22 +373,22 @@ def matches_known(k, why, ops):
 
 def setup():
     import props
-    st = regenerate()
+    regenerate()
+    bad = []
     with Lock("lake"):
-        rc, out = run(["lake", "build"], cwd=LEAN, timeout=7200)
-        print(out[-3000:])
-        if rc != 0:
-            raise SystemExit("lake build failed")
-    seen = set()
+        for pid, cfg in props.PROPS.items():
+            rc, out = run(["lake", "build"] + cfg["modules"] + ["driver_" + pid.lower()], cwd=LEAN, timeout=7200)
+            print("setup: lake build %s rc=%d" % (pid, rc))
+            if rc != 0:
+                print(out[-3000:])
+                bad.append(pid)
     for pid, cfg in props.PROPS.items():
-        h = cfg["harness"]
-        key = (h["pkg"], h.get("go", "go"))
-        if key in seen:
-            continue
-        seen.add(key)
-        exe, err = build_harness(*key)
+        exe, err = build_harness(pid, cfg["harness"])
         if exe is None:
-            raise SystemExit("harness %s does not build:\n%s" % (key, err))
+            print("setup: harness %s does not build:\n%s" % (pid, err))
+            bad.append(pid)
+    if bad:
+        raise SystemExit("setup failed for: " + ", ".join(bad))
     print("setup ok")
 
 
@@ -439,7 +444,7 @@ def main():
     # 3. correspond
     hcfg = cfg["harness"]
     gobin = hcfg.get("go", "go")
-    exe, err = build_harness(hcfg["pkg"], gobin)
+    exe, err = build_harness(pid, hcfg)
     cases, model, issues = [], [], []
     corr_broken = []
     harness_log = ""
